@@ -38,3 +38,43 @@
   (mk_S_osm_WayNode (S_osm_WayNode_f_ID x) (S_osm_Update_f_Version u) (S_osm_Update_f_ChangesetID u) (S_osm_Update_f_Lat u) (S_osm_Update_f_Lon u)))
 (define-fun nodeAfter ((x S_osm_WayNode) (U (Array Int S_osm_Update)) (o Int) (n Int) (t Int) (i Int)) S_osm_WayNode
   (ite (< (lastApp U o n t i) 0) x (wnApply x (select U (sidx o (lastApp U o n t i))))))
+; relation members: apply one update (orientation flips on Reverse)
+(define-fun mApply ((m S_osm_Member) (u S_osm_Update)) S_osm_Member
+  (mk_S_osm_Member (S_osm_Member_f_Type m) (S_osm_Member_f_Ref m) (S_osm_Member_f_Role m)
+    (S_osm_Update_f_Version u) (S_osm_Update_f_ChangesetID u) (S_osm_Update_f_Lat u) (S_osm_Update_f_Lon u)
+    (ite (S_osm_Update_f_Reverse u) (* (S_osm_Member_f_Orientation m) (- 1)) (S_osm_Member_f_Orientation m))
+    (S_osm_Member_f_Nodes m)))
+; member i after applying, in list order, those of the first n updates that are stamped <= t and name index i
+(declare-fun memberAfterF (Fuel S_osm_Member (Array Int S_osm_Update) Int Int Int Int) S_osm_Member)
+(assert (forall ((ly Fuel) (m S_osm_Member) (U (Array Int S_osm_Update)) (o Int) (n Int) (t Int) (i Int))
+  (! (= (memberAfterF (LS ly) m U o n t i) (memberAfterF ly m U o n t i)) :pattern ((memberAfterF (LS ly) m U o n t i)))))
+(assert (forall ((ly Fuel) (m S_osm_Member) (U (Array Int S_osm_Update)) (o Int) (n Int) (t Int) (i Int))
+  (! (= (memberAfterF (LS ly) m U o n t i)
+        (ite (<= n 0) m
+          (ite (and (<= (updTs (select U (sidx o (- n 1)))) t) (= (updIdx (select U (sidx o (- n 1)))) i))
+            (mApply (memberAfterF ly m U o (- n 1) t i) (select U (sidx o (- n 1))))
+            (memberAfterF ly m U o (- n 1) t i))))
+     :pattern ((memberAfterF (LS ly) m U o n t i)))))
+(define-fun memberAfter ((m S_osm_Member) (U (Array Int S_osm_Update)) (o Int) (n Int) (t Int) (i Int)) S_osm_Member
+  (memberAfterF (LS (LS LZ)) m U o n t i))
+; number of the first n updates stamped at or before t
+(declare-fun cntEarlyF (Fuel (Array Int S_osm_Update) Int Int Int) Int)
+(assert (forall ((ly Fuel) (U (Array Int S_osm_Update)) (o Int) (n Int) (t Int))
+  (! (= (cntEarlyF (LS ly) U o n t) (cntEarlyF ly U o n t)) :pattern ((cntEarlyF (LS ly) U o n t)))))
+(assert (forall ((ly Fuel) (U (Array Int S_osm_Update)) (o Int) (n Int) (t Int))
+  (! (= (cntEarlyF (LS ly) U o n t)
+        (ite (<= n 0) 0
+          (+ (cntEarlyF ly U o (- n 1) t) (ite (> (updTs (select U (sidx o (- n 1)))) t) 0 1))))
+     :pattern ((cntEarlyF (LS ly) U o n t)))))
+(define-fun cntEarly ((U (Array Int S_osm_Update)) (o Int) (n Int) (t Int)) Int (cntEarlyF (LS (LS LZ)) U o n t))
+; annotated way nodes (the library's own convention: version set, or a location)
+(define-fun wnAnnotated ((x S_osm_WayNode)) Bool
+  (or (not (= (S_osm_WayNode_f_Version x) 0)) (not (= (S_osm_WayNode_f_Lon x) 0.0)) (not (= (S_osm_WayNode_f_Lat x) 0.0))))
+(declare-fun cntAnnF (Fuel (Array Int S_osm_WayNode) Int Int) Int)
+(assert (forall ((ly Fuel) (N (Array Int S_osm_WayNode)) (o Int) (n Int))
+  (! (= (cntAnnF (LS ly) N o n) (cntAnnF ly N o n)) :pattern ((cntAnnF (LS ly) N o n)))))
+(assert (forall ((ly Fuel) (N (Array Int S_osm_WayNode)) (o Int) (n Int))
+  (! (= (cntAnnF (LS ly) N o n)
+        (ite (<= n 0) 0 (+ (cntAnnF ly N o (- n 1)) (ite (wnAnnotated (select N (sidx o (- n 1)))) 1 0))))
+     :pattern ((cntAnnF (LS ly) N o n)))))
+(define-fun cntAnn ((N (Array Int S_osm_WayNode)) (o Int) (n Int)) Int (cntAnnF (LS (LS LZ)) N o n))
